@@ -293,6 +293,13 @@ impl<'a, T: Read + Write + Seek> PointCloudWriter<'a, T> {
         validate_color(prototype)?;
         validate_return(prototype)?;
 
+        // Each attribute can only exist once, lookups by name would ignore the duplicates
+        for (i, record) in prototype.iter().enumerate() {
+            if prototype[..i].iter().any(|p| p.name == record.name) {
+                Error::invalid("The prototype contains the same attribute more than once")?
+            }
+        }
+
         // Integer ranges must not be empty, such a record cannot be read again
         for record in prototype {
             match record.data_type {
